@@ -3,7 +3,7 @@
    Model: Model.Pipeline (heap of pipeline / item objects with the item -> owner back-pointer);
    specification: Spec.AbsPipeline (a pipeline IS items, post-processing items, finalizers, vars). *)
 From Coq Require Import NArith ZArith List Bool Permutation Sorting.Sorted.
-From PS Require Import Base.Chars Base.Outcome Spec.AbsPipeline Model.Pipeline Proofs.PipelineP.
+From PS Require Import Base.Chars Base.Outcome Spec.AbsPipeline Model.Pipeline Proofs.PipelineP Proofs.HistoryP.
 Import ListNotations.
 Open Scope N_scope.
 
@@ -119,8 +119,37 @@ Theorem C14_stage_order : forall h f bk user outf h' s rules, valid h outf ->
 Proof. exact stage_order. Qed.
 Print Assumptions C14_stage_order.
 
+(* histories.  FULL STATEMENT (false, see C14_history_refuted): the premise `snd (mexec ...) = true`
+   dropped, i.e. every history of API calls (bracketings of +, resolver calls, backend
+   initialisations, conversions with and without re-initialisation, on two backend instances sharing
+   the class-level pipelines, operands fresh or used) shows what the value-only specification of
+   that history shows.  Proved part: the histories in which the initial objects are distinct and
+   every conversion WITHOUT re-initialisation runs a pipeline that still owns its objects (the
+   second component of mexec; conversions through Backend.convert() always qualify). *)
+Theorem C14_history_partial : forall f defs bkd outd rules prog h0 l,
+  mk_defs h_empty (defs ++ [bkd; outd]) = (h0, Ok l) ->
+  snd (mexec f defs bkd outd rules prog) = true ->
+  fst (mexec f defs bkd outd rules prog)
+  = aexec f (map adef defs) (fst (fst (adef bkd))) (fst (fst (adef outd))) rules prog.
+Proof. exact history_sound. Qed.
+Print Assumptions C14_history_partial.
+
+Theorem C14_history_refuted :
+  exists f defs bkd outd rules prog l,
+    snd (mk_defs h_empty (defs ++ [bkd; outd])) = Ok l /\
+    snd (mexec f defs bkd outd rules prog) = false /\
+    fst (mexec f defs bkd outd rules prog)
+    <> aexec f (map adef defs) (fst (fst (adef bkd))) (fst (fst (adef outd))) rules prog.
+Proof. exact history_refuted. Qed.
+Print Assumptions C14_history_refuted.
+
 (* non-vacuity: the premises are met by concrete pipelines, and a sum that is defined *)
 Example C14_premises_inhabited :
   wf_heap w_h0 /\ valid w_h0 w_p /\ valid w_h0 w_q /\ owned w_h0 w_p /\
   snd (add w_h0 w_p w_q) = Ok w_s /\ owned (fst (add w_h0 w_p w_q)) w_s.
 Proof. exact premises_inhabited. Qed.
+Example C14_history_premises_inhabited :
+  exists l, snd (mk_defs h_empty ([w_defA; w_defE (Some [98])] ++ [w_defE None; w_defE None])) = Ok l /\
+  snd (mexec FState [w_defA; w_defE (Some [98])] (w_defE None) (w_defE None) w_rules w_prog_fresh) = true /\
+  exists r, fst (mexec FState [w_defA; w_defE (Some [98])] (w_defE None) (w_defE None) w_rules w_prog_fresh) = Ok r.
+Proof. exact history_inhabited. Qed.
